@@ -82,11 +82,13 @@ where
             self.data.push(None);
         }
 
+        // Only an entry that was previously empty changes the number of items
+        if self.data[index].is_none() {
+            self.size += 1;
+        }
+
         // Actually write the data into the vector.
         self.data[index] = Some(value);
-
-        // Increment the size so it stays accurate
-        self.size += 1;
     }
 
     /// Gets the value in the map for the provided `key` or [`None`] if there is
